@@ -29,7 +29,8 @@ CONSTANTS ExhFamilies,      \* exhaustive rectangular families: << sub-size sequ
           ExhL,             \* their positions range over (0..ExhL)^2
           NeighbourShapes,  \* <<my,mx>> whose neighbour graph is enumerated
           DelSizes,         \* DelSpec: numbers of vertices
-          DelL              \* DelSpec: vertices range over (0..DelL)^2
+          DelL,             \* DelSpec: vertices range over (0..DelL)^2
+          DelE              \* DelSpec: probes sit at DelE^-1 .. 256/DelE of a tick from edges and vertices (DelE = 2^16)
 
 \* seeded instance family (JSON array of records kind/id/sub/pos/my/mx) written by the driver
 Insts == JsonDeserialize(IOEnv.INST_FILE)
@@ -109,20 +110,32 @@ IsTriangle(V, t) ==
     /\ t[1] # t[2] /\ t[1] # t[3] /\ t[2] # t[3]
     /\ Orient(Vx(V, t[1]), Vx(V, t[2]), Vx(V, t[3])) # 0
 TriSet(t) == {t[1], t[2], t[3]}
-\* p in the closed triangle t
-Inside(V, t, p) ==
+
+\* A QUERY POINT q = <<y, x, dy, dx, E>> is the point (y + dy/E, x + dx/E): a lattice point plus an exact dyadic
+\* offset (E a power of two), so that positions at 2^-8 .. 2^-16 of a tick from an edge are still decided by integer
+\* determinants, without any tolerance.  A plain lattice point is <<y, x, 0, 0, 1>>.
+Lat(p) == << p[1], p[2], 0, 0, 1 >>
+\* E times twice the signed area of (a, b, q)   (Orient is linear in its last argument)
+OrientQ(a, b, q) ==
+    Orient(a, b, << q[1], q[2] >>) * q[5] + ((b[1] - a[1]) * q[4] - (b[2] - a[2]) * q[3])
+\* q in the closed triangle t
+Inside(V, t, q) ==
     LET a == Vx(V, t[1]) b == Vx(V, t[2]) c == Vx(V, t[3]) s == Sign(Orient(a, b, c))
-    IN Sign(Orient(a, b, p)) * s >= 0 /\ Sign(Orient(b, c, p)) * s >= 0 /\ Sign(Orient(c, a, p)) * s >= 0
-StrictlyInside(V, t, p) ==
+    IN Sign(OrientQ(a, b, q)) * s >= 0 /\ Sign(OrientQ(b, c, q)) * s >= 0 /\ Sign(OrientQ(c, a, q)) * s >= 0
+StrictlyInside(V, t, q) ==
     LET a == Vx(V, t[1]) b == Vx(V, t[2]) c == Vx(V, t[3]) s == Sign(Orient(a, b, c))
-    IN Sign(Orient(a, b, p)) * s > 0 /\ Sign(Orient(b, c, p)) * s > 0 /\ Sign(Orient(c, a, p)) * s > 0
-\* barycentric coordinates as area ratios: vertex k gets Area(p, the other two vertices) / Area(t)
-BaryNum(V, t, p) ==
+    IN Sign(OrientQ(a, b, q)) * s > 0 /\ Sign(OrientQ(b, c, q)) * s > 0 /\ Sign(OrientQ(c, a, q)) * s > 0
+\* barycentric coordinates as area ratios: vertex k gets Area(q, the other two vertices) / Area(t);
+\* numerators and denominator are both carried times E
+BaryNum(V, t, q) ==
     LET a == Vx(V, t[1]) b == Vx(V, t[2]) c == Vx(V, t[3])
-    IN << Area2(p, b, c), Area2(a, p, c), Area2(a, b, p) >>
-BaryDen(V, t) == Area2(Vx(V, t[1]), Vx(V, t[2]), Vx(V, t[3]))
+    IN << AbsV(OrientQ(b, c, q)), AbsV(OrientQ(c, a, q)), AbsV(OrientQ(a, b, q)) >>
+BaryArea(V, t) == Area2(Vx(V, t[1]), Vx(V, t[2]), Vx(V, t[3]))
+BaryDen(V, t, q) == BaryArea(V, t) * q[5]
 Dist2(a, b) == Sq(a[1] - b[1]) + Sq(a[2] - b[2])
-IsNearest(V, k, p) == k \in VIdx(V) /\ \A j \in VIdx(V) : Dist2(Vx(V, k), p) <= Dist2(Vx(V, j), p)
+\* E times the squared distance from v to q, less the term |offset|^2/E common to all v
+DistKey(v, q) == Dist2(v, << q[1], q[2] >>) * q[5] - 2 * ((v[1] - q[1]) * q[3] + (v[2] - q[2]) * q[4])
+IsNearest(V, k, q) == k \in VIdx(V) /\ \A j \in VIdx(V) : DistKey(Vx(V, k), q) <= DistKey(Vx(V, j), q)
 
 \* ---- what a valid Delaunay answer is ----------------------------------------
 \* T: a set of simplices reported for the vertices V.  The specification does not construct a triangulation.
@@ -165,10 +178,13 @@ NoFourCocircular(V) ==
         InCircle(Vx(V, t[1]), Vx(V, t[2]), Vx(V, t[3]), Vx(V, k)) # 0
 GeneralPosition(V) == NoThreeCollinear(V) /\ NoFourCocircular(V)
 \* p in the convex hull of V, said without any triangulation
-InHull(V, p) ==
+InHull(V, q) ==
     \A a, b \in VIdx(V) :
         (a # b /\ HullEdge(V, {a, b})) =>
-            \A u \in VIdx(V) : Sign(Orient(Vx(V, a), Vx(V, b), p)) * Sign(Orient(Vx(V, a), Vx(V, b), Vx(V, u))) >= 0
+            \A u \in VIdx(V) : Sign(OrientQ(Vx(V, a), Vx(V, b), q)) * Sign(Orient(Vx(V, a), Vx(V, b), Vx(V, u))) >= 0
+\* q on the line through a hull edge (there inside / outside is a matter of floating-point tolerance)
+OnHullLine(V, q) ==
+    \E a, b \in VIdx(V) : a # b /\ HullEdge(V, {a, b}) /\ OrientQ(Vx(V, a), Vx(V, b), q) = 0
 
 \* ---- adjacency ----------------------------------------------------------------
 Adj4(a, my, mx) ==
@@ -350,7 +366,40 @@ Triangulate ==
     /\ tab' = [valid |-> ValidSimplices(inp.V, inp.T), delaunay |-> DelaunayTriples(inp.V)]
     /\ UNCHANGED << inp, mat, uniq, nbr >>
 
-DelSpec == DelInit /\ [][Triangulate]_vars
+\* Probes: query points a hair away from the simplex edges and from the vertices.  For an edge (a,b): its midpoint
+\* shifted by +-g/DelE times the integer normal (g = 256, 16, 1, i.e. 2^-8, 2^-12, 2^-16 of the normal), and the
+\* midpoint itself; for a vertex: the eight offsets (+-1/DelE, +-1/DelE).
+EdgeProbe(V, e, sd, g) ==
+    LET a == Vx(V, e[1]) b == Vx(V, e[2]) IN
+    << a[1], a[2], (b[1] - a[1]) * (DelE \div 2) - sd * g * (b[2] - a[2]),
+                   (b[2] - a[2]) * (DelE \div 2) + sd * g * (b[1] - a[1]), DelE >>
+SimplexEdges(V, T) == { e \in VIdx(V) \X VIdx(V) : e[1] < e[2] /\ \E t \in T : {e[1], e[2]} \subseteq TriSet(t) }
+EdgeProbes(V, T) == { EdgeProbe(V, e, sg[1], sg[2]) : e \in SimplexEdges(V, T), sg \in {-1, 0, 1} \X {1, 16, 256} }
+VertexProbes(V) ==
+    { << Vx(V, k)[1], Vx(V, k)[2], d[1], d[2], DelE >> : k \in VIdx(V), d \in ({-1, 0, 1} \X {-1, 0, 1}) \ {<<0, 0>>} }
+Queries(V, T) == { Lat(p) : p \in Lattice(DelL) } \cup EdgeProbes(V, T) \cup VertexProbes(V)
+
+\* what the specification wants for a query point under an accepted answer: the weight of every vertex (over den), or the
+\* set of nearest vertices for a point outside the hull
+WantFor(V, T, q) ==
+    IF \E t \in T : Inside(V, t, q)
+    THEN LET t == CHOOSE t \in T : Inside(V, t, q)  w == BaryNum(V, t, q) IN
+         [q |-> q, inside |-> TRUE, den |-> BaryDen(V, t, q),
+          w |-> [k \in 1 .. Len(V) |-> SumOver({j \in 1 .. 3 : t[j] = k - 1}, LAMBDA j : w[j])], near |-> << >>]
+    ELSE [q |-> q, inside |-> FALSE, den |-> 1, w |-> << >>,
+          near |-> SetToSeq({k \in VIdx(V) : IsNearest(V, k, q)})]
+\* an accepted answer in general position is handed to the real Delaunay mapper together with its probes
+Probe ==
+    /\ phase = "judged" /\ tab.valid /\ GeneralPosition(inp.V)
+    /\ phase' = "probed"
+    /\ LET H == TLCEval({e \in SimplexEdges(inp.V, inp.T) : HullEdge(inp.V, {e[1], e[2]})})
+           P == TLCEval({q \in EdgeProbes(inp.V, inp.T) \cup VertexProbes(inp.V) :
+                           \A e \in H : OrientQ(Vx(inp.V, e[1]), Vx(inp.V, e[2]), q) # 0})
+       IN PrintT(ToJson([k |-> "del", V |-> inp.V, T |-> SetToSeq(inp.T),
+                         want |-> SetToSeq({WantFor(inp.V, inp.T, q) : q \in P})]))
+    /\ UNCHANGED << inp, tab, mat, uniq, nbr >>
+
+DelSpec == DelInit /\ [][Triangulate \/ Probe]_vars
 
 Judged == phase = "judged"
 \* in general position the validity predicates accept exactly the Delaunay triangulation
@@ -361,25 +410,34 @@ ValidityIsSound == (Judged /\ tab.valid) => inp.T \subseteq tab.delaunay
 \* ... and some answer is accepted for every vertex set (asked once per vertex set, in the state with no simplices)
 SomeAnswerIsValid ==
     (Judged /\ inp.T = {}) => \E T \in SUBSET tab.delaunay : ValidSimplices(inp.V, T)
-\* an accepted answer covers exactly the hull, without overlap
+\* an accepted answer covers exactly the hull, without overlap -- for lattice points and for points a hair off the edges
 ValidTilesExactly ==
     (Judged /\ tab.valid) =>
-        \A p \in Lattice(DelL) :
-            /\ (\E t \in inp.T : Inside(inp.V, t, p)) <=> InHull(inp.V, p)
-            /\ Cardinality({t \in inp.T : StrictlyInside(inp.V, t, p)}) <= 1
+        \A q \in Queries(inp.V, inp.T) :
+            /\ (\E t \in inp.T : Inside(inp.V, t, q)) <=> InHull(inp.V, q)
+            /\ Cardinality({t \in inp.T : StrictlyInside(inp.V, t, q)}) <= 1
 \* barycentric weights are non-negative and sum to one exactly on the closed triangle; the interpolation does not
 \* depend on which of several containing triangles is taken (a vertex absent from a triangle has weight 0)
 BarycentricWellDefined ==
     (Judged /\ tab.valid) =>
-        \A p \in Lattice(DelL) : \A t \in inp.T :
-            LET w == BaryNum(inp.V, t, p) d == BaryDen(inp.V, t) IN
-            /\ (Inside(inp.V, t, p) <=> w[1] + w[2] + w[3] = d)
-            /\ (Inside(inp.V, t, p) =>
-                  \A s \in inp.T : Inside(inp.V, s, p) =>
-                     LET ws == BaryNum(inp.V, s, p) ds == BaryDen(inp.V, s) IN
+        \A q \in Queries(inp.V, inp.T) : \A t \in inp.T :
+            LET w == BaryNum(inp.V, t, q) IN
+            /\ (Inside(inp.V, t, q) <=> w[1] + w[2] + w[3] = BaryDen(inp.V, t, q))
+            /\ (Inside(inp.V, t, q) =>
+                  \A s \in inp.T : Inside(inp.V, s, q) =>
+                     LET ws == BaryNum(inp.V, s, q) IN
                      \A k \in VIdx(inp.V) :
-                        SumOver({j \in 1 .. 3 : t[j] = k}, LAMBDA j : w[j]) * ds
-                          = SumOver({j \in 1 .. 3 : s[j] = k}, LAMBDA j : ws[j]) * d)
+                        SumOver({j \in 1 .. 3 : t[j] = k}, LAMBDA j : w[j]) * BaryArea(inp.V, s)
+                          = SumOver({j \in 1 .. 3 : s[j] = k}, LAMBDA j : ws[j]) * BaryArea(inp.V, t))
+\* the two probes mirrored in an edge never share a simplex, and across a hull edge exactly one of them is in the
+\* hull: a point location with a tolerance (which cannot tell them apart) must give a wrong answer for one of them
+ProbesSeparateTheSides ==
+    (Judged /\ tab.valid) =>
+        \A e \in SimplexEdges(inp.V, inp.T) : \A g \in {1, 16, 256} :
+            LET qp == EdgeProbe(inp.V, e, 1, g)  qm == EdgeProbe(inp.V, e, -1, g) IN
+            /\ ~ \E t \in inp.T : Inside(inp.V, t, qp) /\ Inside(inp.V, t, qm)
+            /\ HullEdge(inp.V, {e[1], e[2]}) => (InHull(inp.V, qp) # InHull(inp.V, qm))
+            /\ ~ HullEdge(inp.V, {e[1], e[2]}) => (InHull(inp.V, qp) /\ InHull(inp.V, qm))
 \* the adjacency read off the simplices is symmetric and gives every vertex at least two neighbours
 SimplexAdjacencySymmetric ==
     (Judged /\ tab.valid) =>
